@@ -16,7 +16,7 @@ CONSTANTS
   LAZY = TRUE
   MaxLoss = 0
   MaxDup = 0
-  MaxQ = 10
+  MaxQ = 14
   MaxTO = 3
   PROMPT = TRUE
 INVARIANTS
